@@ -8,6 +8,20 @@ HERE = os.path.dirname(os.path.dirname(os.path.abspath(__file__)))
 
 # id -> (category, technique, level text, level note (trusted base / assumptions), design ref, engine)
 CLAIMED = {
+    "C01": ("proof",
+            "per-representation contracts on the named gate classes, decided on the real methods with exact symbolic "
+            "parameters: eigvals via power sums tr(M^p) == sum e^p (p = 1..dim), ordered eigvals == diagonal for "
+            "diagonal-in-Z gates, diagonalizing gates D M D^dagger == diag(eigvals), decomposition product == M, generator "
+            "through dM/dtheta == i c G M and M(0) == I, sparse matrix, Pauli representation, has_* flags vs produced / "
+            "documented *UndefinedError; Laurent normal form; bounded float stand-ins where a representation falls back to "
+            "numeric linear algebra",
+            "For the ~50 fixed-arity named gates plus MultiRZ/PauliRot/PCPhase/MultiControlledX instances every exposed "
+            "representation describes the same linear map as the dense matrix, for all parameter values (351 obligations); "
+            "representations that the class only provides through numeric fallbacks (generic eigvals, scipy.sparse, "
+            "float()-converting decompositions: 29 cases) are compared at seeded float points and reported as bounded.",
+            "Trusts vf/symx, Newton identities, ODE uniqueness for the generator clause; numpy interface; templates, operator "
+            "arithmetic (C03) and fractional powers are outside.",
+            "DESIGN.md 4 C01", "E2"),
     "C02": ("proof",
             "contract on each gate's compute_matrix (ensures == documented formula); real kernel executed on exact "
             "symbolic scalars; Laurent-polynomial normal-form equality (decision procedure), float replay of refutations",
